@@ -24,6 +24,8 @@ pub enum Op {
     Del(u8),
     Merge,
     Reopen,
+    /// close and open again with other merge thresholds (they are a parameter of every open)
+    ReopenAs(Thr),
 }
 
 pub const NEVER_KEY: u8 = 9;
@@ -60,6 +62,7 @@ impl Op {
             Op::Del(k) => json!(["del", k]),
             Op::Merge => json!(["merge"]),
             Op::Reopen => json!(["reopen"]),
+            Op::ReopenAs(t) => json!(["reopen_as", t.name()]),
         }
     }
     pub fn from_json(v: &Value) -> Option<Op> {
@@ -69,6 +72,7 @@ impl Op {
             "del" => Some(Op::Del(a.get(1)?.as_u64()? as u8)),
             "merge" => Some(Op::Merge),
             "reopen" => Some(Op::Reopen),
+            "reopen_as" => Some(Op::ReopenAs(Thr::parse(a.get(1)?.as_str()?))),
             _ => None,
         }
     }
@@ -78,6 +82,7 @@ impl Op {
             Op::Del(k) => format!("del({})", hex(&key_bytes(*k))),
             Op::Merge => "merge".into(),
             Op::Reopen => "reopen".into(),
+            Op::ReopenAs(t) => format!("reopen[thresholds {}]", t.name()),
         }
     }
 }
@@ -311,7 +316,10 @@ impl Exec {
                 let r = catch(|| h.verif_merge()).map(|r| r.map_err(|e| e.to_string()));
                 (format!("{:?}", r), "Ok(Ok(()))".into())
             }
-            Op::Reopen => {
+            Op::Reopen | Op::ReopenAs(_) => {
+                if let Op::ReopenAs(t) = op {
+                    self.cfg.thr = t;
+                }
                 let r: Result<Result<(), String>, String> = match self.reopen() {
                     Ok(()) => Ok(Ok(())),
                     Err(m) if m.starts_with("PANIC") => Err(m),
@@ -625,7 +633,7 @@ fn run_word_here(prop: &str, cfg: Cfg, word: &[Op], keys: &[u8], o: Oracles, tra
             pre_sizes = data_files(&before).values().map(|b| b.len() as u64).sum();
             if let Ok(Ok(ids)) = catch(|| e.h().verif_fileids_to_merge()) {
                 let all: Vec<u64> = data_files(&before).keys().cloned().collect();
-                res.merge_subsets.push(format!("{}:{:?}/{:?}", cfg.thr.name(), ids, all));
+                res.merge_subsets.push(format!("{}:{:?}/{:?}", e.cfg.thr.name(), ids, all));
                 selected = ids;
             }
         }
@@ -689,7 +697,7 @@ fn run_word_here(prop: &str, cfg: Cfg, word: &[Op], keys: &[u8], o: Oracles, tra
                     }
                 }
             }
-            if cfg.thr == Thr::All {
+            if e.cfg.thr == Thr::All {
                 let minimal: u64 = e.model.iter().map(|(k, v)| model::entry_size(k, v)).sum();
                 if after != minimal {
                     viol.push(("C13:not-minimal-after-full-merge".into(), format!("data files total {} bytes after a merge of every file, live pairs need {}", after, minimal), Some(i)));
@@ -713,13 +721,13 @@ fn run_word_here(prop: &str, cfg: Cfg, word: &[Op], keys: &[u8], o: Oracles, tra
                 let files2 = list_dir(dir);
                 let after2: u64 = data_files(&files2).values().map(|b| b.len() as u64).sum();
                 let live_after: BTreeSet<(Vec<u8>, Option<Vec<u8>>)> = data_files(&files2).values().flat_map(|b| model::decode_data(b).0).map(|en| (en.key, en.value)).collect();
-                if after2 != after && cfg.thr == Thr::All {
+                if after2 != after && e.cfg.thr == Thr::All {
                     viol.push(("C13:second-merge-changed-size".into(), format!("{} bytes after the first merge, {} after the second", after, after2), Some(i)));
                 }
                 if after2 > after {
                     viol.push(("C13:merge-grew-the-store".into(), format!("second merge: {} bytes before, {} after", after, after2), Some(i)));
                 }
-                if cfg.thr == Thr::All && live_before != live_after {
+                if e.cfg.thr == Thr::All && live_before != live_after {
                     viol.push(("C13:second-merge-changed-contents".into(), "multiset of entries on disk differs".into(), Some(i)));
                 }
                 check_reads(&e, keys, "C13", &mut viol, i);
@@ -913,12 +921,34 @@ pub fn plan(prop: &str, tier: Tier, seeds: &[u64]) -> Vec<Sweep> {
             sweeps.push(Sweep { name: format!("{}-depth{}", name, dt), alphabet, depth: dt, cfgs, oracles, keys: main_keys.clone(), trailing_reopens: trailing, preload: vec![] });
         }
     };
+    // Non-initial states: the store is first filled and fully merged under ALL thresholds (its data
+    // now sits in hinted merge outputs), then re-opened with the thresholds under test. Two merges
+    // with DIFFERENT selections are far beyond the word depth otherwise.
+    let after_merge = |sweeps: &mut Vec<Sweep>, depth: usize, oracles: Oracles| {
+        let preloads: Vec<(&str, Vec<Op>)> = vec![
+            ("ab", vec![SET_A1, SET_B1, Op::Merge]),
+            ("aB", vec![SET_A1, SET_BBIG, Op::Merge]),
+            ("a|b", vec![SET_A1, Op::Merge, SET_B1, Op::Merge]),
+        ];
+        for (pn, pre) in preloads {
+            for thr in [Thr::Dead, Thr::Size27, Thr::Size100, Thr::Frag, Thr::None] {
+                let mut preload = pre.clone();
+                preload.push(Op::ReopenAs(thr));
+                sweeps.push(Sweep { name: format!("after-merge[{}]->{}-depth{}", pn, thr.name(), depth), alphabet: full.clone(), depth, cfgs: core_grid(&seeds[..1], &[Thr::All], &[0, MFS_BIG]), oracles, keys: main_keys.clone(), trailing_reopens: 0, preload });
+            }
+        }
+    };
     match prop {
         "C01" => {
             let alpha = vec![SET_A1, SET_A22, SET_B1, SET_BBIG, DEL_A, DEL_B, Op::Merge];
             deep("core", alpha.clone(), 5, 7, core_grid(seeds, &all_thr, &mfss), kv, 0);
             sweeps.push(Sweep { name: "cache-conc".into(), alphabet: alpha, depth: tier.pick(4, 5), cfgs: cache_conc_grid(seeds[0], Thr::All), oracles: kv, keys: main_keys.clone(), trailing_reopens: 0, preload: vec![] });
             sweeps.push(Sweep { name: "wide".into(), alphabet: wide_ops(true, false), depth: tier.pick(2, 3), cfgs: core_grid(&seeds[..1], &[Thr::All, Thr::Dead], &[0, 60, MFS_BIG]), oracles: kv, keys: wide_keys.clone(), trailing_reopens: 0, preload: vec![] });
+            // the reads after every step warm the reader's file cache, and a warm reader keeps
+            // answering from a file that a merge has removed: the same sweep with NO reader cache
+            // (every read opens its file) and two pooled readers
+            let cold: Vec<Cfg> = core_grid(&seeds[..1], &[Thr::All, Thr::Dead], &[0, 60, MFS_BIG]).into_iter().map(|c| Cfg { cache: 0, conc: 2, ..c }).collect();
+            sweeps.push(Sweep { name: "wide-cold-readers".into(), alphabet: wide_ops(true, false), depth: tier.pick(2, 3), cfgs: cold, oracles: kv, keys: wide_keys.clone(), trailing_reopens: 0, preload: vec![] });
         }
         "C02" => {
             let alpha = vec![SET_A1, SET_A22, SET_B1, DEL_A, DEL_B, Op::Reopen];
@@ -939,11 +969,15 @@ pub fn plan(prop: &str, tier: Tier, seeds: &[u64]) -> Vec<Sweep> {
                 deep("core", full.clone(), 5, 6, core_grid(seeds, &all_thr, &mfss), kv, 0);
             }
             sweeps.push(Sweep { name: "cache-conc".into(), alphabet: full.clone(), depth: 4, cfgs: cache_conc_grid(seeds[0], Thr::Size27), oracles: kv, keys: main_keys.clone(), trailing_reopens: 0, preload: vec![] });
+            after_merge(&mut sweeps, tier.pick(4, 5), kv);
             sweeps.push(Sweep { name: "wide".into(), alphabet: wide_ops(true, true), depth: tier.pick(2, 3), cfgs: core_grid(&seeds[..1], &[Thr::All, Thr::Size27], &[0, 60]), oracles: kv, keys: wide_keys.clone(), trailing_reopens: 0, preload: vec![] });
+            let cold: Vec<Cfg> = core_grid(&seeds[..1], &[Thr::All, Thr::Size27], &[0, 60]).into_iter().map(|c| Cfg { cache: 0, conc: 2, ..c }).collect();
+            sweeps.push(Sweep { name: "wide-cold-readers".into(), alphabet: wide_ops(true, true), depth: tier.pick(2, 3), cfgs: cold, oracles: kv, keys: wide_keys.clone(), trailing_reopens: 0, preload: vec![] });
         }
         "C12" => {
             let o = Oracles { c12: true, ..Default::default() };
             deep("core", full.clone(), 4, 5, core_grid(seeds, &all_thr, &mfss), o, 0);
+            after_merge(&mut sweeps, tier.pick(3, 4), o);
         }
         "C13" => {
             let o = Oracles { c13: true, ..Default::default() };
@@ -953,6 +987,7 @@ pub fn plan(prop: &str, tier: Tier, seeds: &[u64]) -> Vec<Sweep> {
             } else {
                 deep("core", full.clone(), 5, 6, core_grid(seeds, &all_thr, &mfss), o, 0);
             }
+            after_merge(&mut sweeps, tier.pick(3, 5), o);
         }
         "C14" => {
             let o = Oracles { c14: true, reopen_stable: true, ..Default::default() };
@@ -966,6 +1001,7 @@ pub fn plan(prop: &str, tier: Tier, seeds: &[u64]) -> Vec<Sweep> {
             } else {
                 deep("core", full.clone(), 5, 6, core_grid(seeds, &all_thr, &mfss), o, 0);
             }
+            after_merge(&mut sweeps, tier.pick(3, 5), o);
         }
         _ => panic!("no E1 plan for {}", prop),
     }
@@ -1055,7 +1091,7 @@ fn record(sh: &mut Shard, case: &WordCase, r: WordResult, dir: &Path) {
             if !seen.insert(class.clone()) {
                 continue;
             }
-            sh.violate(Violation { class: classify(&class, case, step), msg: format!("{} | cfg {:?} | word: {} | step {:?}", msg, case.cfg, show_word(case.word), step), case: case.to_json(step) });
+            sh.violate(Violation { class: classify(&class, case, step), msg: format!("{} | cfg {:?} | {}word: {} | step {:?}", msg, case.cfg, if case.preload.is_empty() { String::new() } else { format!("first (unchecked): {} | ", show_word(case.preload)) }, show_word(case.word), step), case: case.to_json(step) });
         }
     }
 }
